@@ -655,7 +655,7 @@ fn prepare_state(slot: &Slot, s: &StateScn) {
 
 fn c08_scenario(slot: &Slot, s: &Scn, max_subsets: usize, evals: &AtomicU64, nontrivial: &AtomicU64, positions: &AtomicU64) -> Vec<Violation> {
     slot.prepare(s);
-    c08_prepared(slot, &NameOnly { name: s.name.to_string() }, max_subsets, true, None, DOUBLE_CRASH.load(Ordering::Relaxed) || matches!(s.name, "S2-propagate-A-to-B" | "S6-both-changed" | "S7-delete-vs-modify" | "S8-first-run-no-archive"), evals, nontrivial, positions)
+    c08_prepared(slot, &NameOnly { name: s.name.to_string() }, max_subsets, true, None, DOUBLE_CRASH.load(Ordering::Relaxed) || matches!(s.name, "S2-propagate-A-to-B" | "S4-delete-A" | "S6-both-changed" | "S7-delete-vs-modify" | "S8-first-run-no-archive"), evals, nontrivial, positions)
 }
 
 fn c08_state_scenario(slot: &Slot, s: &StateScn, max_subsets: usize, evals: &AtomicU64, nontrivial: &AtomicU64, positions: &AtomicU64) -> Vec<Violation> {
@@ -974,7 +974,7 @@ pub fn run_c08(ctx: &Ctx) -> ! {
         .set("graph_scenarios", graph_scenarios as u64)
         .set("second_crash_kill_points", SECOND_POINTS.load(Ordering::Relaxed))
         .set("kill_points_where_torn_subsets_were_capped", TORN_CAPPED.load(Ordering::Relaxed))
-        .set("rule", "scenarios = the named ones (prepared by a real prior sync) PLUS every distinct bisync transition of the bisync history graph (E2 bound; pre-state materialised with its recorded state); per scenario (prepared by a real prior sync so a trusted archive exists): the process is SIGKILLed immediately before its k-th file-system-mutating libc call for EVERY k = 1..N+1 (N from the interposer log of the uninterrupted run, which is replayed twice for determinism); at each k additionally every subset (capped) of files written since their last fsync is torn (empty / half) — crash model: metadata operations persist in issue order, file data only up to the last fsync; each crash state is checked against the state invariant, then recovered with up to 3 more runs; SECOND CRASH (quick: S2/S6/S7/S8; thorough: every scenario incl. the graph ones): from every untorn first crash state the recovery run is itself killed before every one of its calls, with the first crash state as pre-state of the same invariant and recovery checks; non-trivial = crash state differs from both the initial and the final state")
+        .set("rule", "scenarios = the named ones (prepared by a real prior sync) PLUS every distinct bisync transition of the bisync history graph (E2 bound; pre-state materialised with its recorded state); per scenario (prepared by a real prior sync so a trusted archive exists): the process is SIGKILLed immediately before its k-th file-system-mutating libc call for EVERY k = 1..N+1 (N from the interposer log of the uninterrupted run, which is replayed twice for determinism); at each k additionally every subset (capped) of files written since their last fsync is torn (empty / half) — crash model: metadata operations persist in issue order, file data only up to the last fsync; each crash state is checked against the state invariant, then recovered with up to 3 more runs; SECOND CRASH (quick: S2/S4/S6/S7/S8; thorough: every scenario incl. the graph ones): from every untorn first crash state the recovery run is itself killed before every one of its calls, with the first crash state as pre-state of the same invariant and recovery checks; non-trivial = crash state differs from both the initial and the final state")
         .set("samples", json!([{"scenario":"S6-both-changed","kill_at":9,"torn":null},{"scenario":"S2-propagate-A-to-B","kill_at":7,"torn":{"mask":1,"mode":"empty"}}]))
         .set("exhaustive_kill_points", true)
         .set("exhaustive", TORN_CAPPED.load(Ordering::Relaxed) == 0);
